@@ -644,6 +644,8 @@ def search(ctx, broken) -> Report:
             continue
         cases = gen_cases(ctx.rng, repo, n_sampled=8, n_pairs=500) + config_cases(ctx.rng, repo, 30)
         check_repo(ctx, rep, repo, cases, with_model=False)
+    from harness import cli_hist
+    cli_hist.run_scenarios(ctx, rep, {'corrupt': 30}, CLI_MINE)
     return rep
 
 
